@@ -248,7 +248,7 @@ func (s *memStream) Recv() (*pb.SessionRequest, error) {
 }
 func (s *memStream) Send(r *pb.SessionResponse) error { s.sent = append(s.sent, r); return nil }
 
-var words = []string{"a", "svc", "prod", "tenant", "é世", "A-1", "x y", "_", "IK", "0", "user@example.com", "p.q"}
+var words = []string{"a", "svc", "prod", "tenant", "é世", "A-1", "x y", "_", "IK", "0", "user@example.com", "p.q", "100%", "%s", "%d%"}
 
 func drawName(t *rapid.T, label string) string {
 	n := rapid.IntRange(1, 2).Draw(t, label+"N")
@@ -257,6 +257,17 @@ func drawName(t *rapid.T, label string) string {
 		sb.WriteString(rapid.SampledFrom(words).Draw(t, label))
 	}
 	return sb.String()
+}
+
+// slowKMS advances the virtual clock while a system key is being wrapped.
+type slowKMS struct {
+	appencryption.KeyManagementService
+	delay time.Duration
+}
+
+func (s slowKMS) EncryptKey(c context.Context, b []byte) ([]byte, error) {
+	verifhook.Advance(s.delay)
+	return s.KeyManagementService.EncryptKey(c, b)
 }
 
 func refKMSWrap(sk []byte) []byte {
@@ -278,7 +289,7 @@ func TestTwoWayDifferential(t *testing.T) {
 		if rapid.IntRange(0, 9).Draw(t, "emptyPayload") == 0 {
 			payload = []byte{}
 		}
-		desc := fmt.Sprintf("carrier=%s service=%q product=%q partition=%q payload=%dB", c.name, service, product, part, len(payload))
+		desc := fmt.Sprintf("carrier=%s region-suffix=%q service=%q product=%q partition=%q payload=%dB", c.name, c.region, service, product, part, len(payload))
 		bad := func(format string, args ...any) {
 			msg := fmt.Sprintf(format, args...)
 			kit.Rec.Violation(msg)
@@ -289,14 +300,16 @@ func TestTwoWayDifferential(t *testing.T) {
 			t.Fatalf("kms: %v", err)
 		}
 		defer k.Close()
+		// the master-key service is a network call: time passes while it wraps a new system key
+		kmsDelay := rapid.SampledFrom([]time.Duration{0, 0, 0, 400 * time.Millisecond, time.Second, 61 * time.Second}).Draw(t, "kmsEncryptTakes")
 		newFactory := func() *appencryption.SessionFactory {
 			pol := appencryption.NewCryptoPolicy()
 			pol.CreateDatePrecision = time.Second
-			return appencryption.NewSessionFactory(&appencryption.Config{Service: service, Product: product, Policy: pol}, c.ms, k, aead.NewAES256GCM(), appencryption.WithSecretFactory(kit.NewTracker()))
+			return appencryption.NewSessionFactory(&appencryption.Config{Service: service, Product: product, Policy: pol}, c.ms, slowKMS{k, kmsDelay}, aead.NewAES256GCM(), appencryption.WithSecretFactory(kit.NewTracker()))
 		}
 		skID, ikID := kit.RefSKID(service, product, c.region), kit.RefIKID(part, service, product, c.region)
 		refFirst := rapid.Bool().Draw(t, "referenceWritesFirst")
-		verifhook.InstallClock(time.Unix(1_700_000_000+int64(rapid.IntRange(0, 1_000_000).Draw(t, "clock")), 0))
+		verifhook.InstallClock(time.Unix(1_700_000_000+int64(rapid.IntRange(0, 1_000_000).Draw(t, "clock")), int64(rapid.SampledFrom([]int{0, 0, 300_000_000, 700_000_000, 999_999_000}).Draw(t, "clockNanos"))))
 		defer verifhook.RemoveClock()
 		now := verifhook.Now().Unix()
 		refBase := now // the reference's rows are stamped relative to the start, before anything the SDK creates later
